@@ -52,11 +52,20 @@ func ToDateTime64(t time.Time, p Precision) DateTime64 {
 	if t.IsZero() {
 		return 0
 	}
-	return DateTime64(t.UnixNano() / p.Scale())
+	// Not using UnixNano: it is undefined before 1678 and after 2262, DateTime64 covers 1900..2299.
+	scale := p.Scale()
+	return DateTime64(t.Unix()*(int64(time.Second)/scale) + int64(t.Nanosecond())/scale)
 }
 
 // Time returns DateTime64 as time.Time.
 func (d DateTime64) Time(p Precision) time.Time {
-	nsec := int64(d) * p.Scale()
-	return time.Unix(nsec/1e9, nsec%1e9)
+	// Splitting into seconds and ticks first: the total number of nanoseconds can overflow int64.
+	scale := p.Scale()
+	ticks := int64(time.Second) / scale
+	sec, frac := int64(d)/ticks, int64(d)%ticks
+	if frac < 0 {
+		sec--
+		frac += ticks
+	}
+	return time.Unix(sec, frac*scale)
 }
